@@ -1,5 +1,6 @@
 pub mod dir;
 pub mod hist;
+pub mod macrocases;
 #[cfg(feature = "likely")]
 pub mod likelyeng;
 pub mod parse;
